@@ -181,7 +181,9 @@ class C12(Check):
             for (a, b), late in (((("pubkey", "hash"), 0), (("sign", "state"), 1)) if not self.thorough else
                                  ((("pubkey", "hash"), 0), (("sign", "state"), 1), (("hash", "hash"), 0),
                                   (("advance", "pubkey"), 2), (("heartbeat", "state"), 1))):
-                cs.append({"cmds": [a, b], "frag": [1, 1], "bound": self.bound - 1, "platform": plat, "late": late})
+                # (with the manager's real bring-up: a repair after the time-out needs it)
+                cs.append({"cmds": [a, b], "frag": [1, 1], "bound": self.bound - 1, "platform": plat, "late": late,
+                           "bringup": True})
         # a third client whose end is reset (or closed) in the middle of its line while the others wait
         for a, b in ((("sign", "state"), ("heartbeat", "pubkey")) if not self.thorough else
                      (("sign", "state"), ("heartbeat", "pubkey"), ("advance", "hash"), ("state", "state"))):
@@ -204,8 +206,18 @@ class C12(Check):
             if "statecut" in cmds:
                 cut_state_answer(w)
             if case.get("late") is not None:
-                base = w.seq
-                w.inject = lambda world, i, apdu: ("late",) if i - base == case["late"] else None
+                # counted from the first exchange of the first request (after the bring-up, if it is inside)
+                st = {"n": 0, "done": False}
+
+                def inject(world, i, apdu):
+                    if st["done"] or world.tag is None or not getattr(world, "serving", False):
+                        return None
+                    st["n"] += 1
+                    if st["n"] - 1 == case["late"]:
+                        st["done"] = True
+                        return ("late",)
+                    return None
+                w.inject = inject
             frags = []
             for i, line in enumerate(lines):
                 if case["frag"][i] == 1:
